@@ -359,6 +359,70 @@ pub fn add_subs(subs: &mut Vec<Sub>, sz: Sz) {
         );
     }
 
+    // --- form sweep: every form code as the form of a DIE attribute (one-attribute abbreviation)
+    // and as an operand form of a vendor macro opcode, with payloads that are empty, short,
+    // all-ones and all-continuation
+    {
+        let mut forms: Vec<u64> = (0..=0x30u64).collect();
+        forms.extend_from_slice(&[0x1f01, 0x1f02, 0x1f20, 0x1f21, 0x7f, 0x80, 0xffff]);
+        let payloads: Vec<Vec<u8>> = vec![vec![], vec![0x00], vec![0x01, 0x41, 0x00], vec![0xff; 12], vec![0x80; 12], vec![0x7f; 3]];
+        let nf = forms.len() as u64;
+        let np = payloads.len() as u64;
+        subs.push(
+            Sub::new(&sz.tag("form-sweep"), nf * np * 3 * 2 * 2, "every form code 0..=0x30, the GNU forms and three unassigned codes, as (a) the form of the only attribute of a DIE (units of version 2, 4, 5) and (b) the only operand form of a vendor opcode declared in a version 5 .debug_macro opcode_operands_table, followed by payload in {empty, 00, 01 41 00, ff x12, 80 x12, 7f x3}, x byte order: all unit / DIE / attribute / macro drivers", move |ctx, i| {
+                let mut m = Mix(i);
+                let big = m.flag();
+                let macro_ = m.flag();
+                let version = [2u16, 4, 5][m.take(3) as usize];
+                let payload = payloads[m.take(np) as usize].clone();
+                let form = forms[m.0 as usize];
+                let mut ss = SecSet::default();
+                let primary;
+                if macro_ {
+                    // .debug_macro unit: version 5, flags 0x04 (opcode_operands_table present), table with
+                    // one entry: opcode 0xe0, 1 operand of `form`; then an entry with that opcode
+                    let mut b = Enc::new(big);
+                    b.u16(5).u8(0x04);
+                    b.u8(1);
+                    b.u8(0xe0).uleb(1);
+                    b.uleb(form);
+                    b.u8(0xe0);
+                    b.bytes(&payload);
+                    b.u8(0);
+                    ss.macro_ = b.buf;
+                    primary = 13;
+                } else {
+                    let mut a = Enc::new(big);
+                    a.uleb(1).uleb(0x11).u8(0).uleb(0x03).uleb(form);
+                    if form == 0x21 {
+                        a.sleb(5);
+                    }
+                    a.uleb(0).uleb(0).uleb(0);
+                    ss.abbrev = a.buf;
+                    let mut body = Enc::new(big);
+                    body.u16(version);
+                    if version >= 5 {
+                        body.u8(1).u8(8).u32(0);
+                    } else {
+                        body.u32(0).u8(8);
+                    }
+                    body.uleb(1);
+                    body.bytes(&payload);
+                    let mut out = Enc::new(big);
+                    out.with_length(false, &body);
+                    ss.info = out.buf;
+                    primary = 1;
+                }
+                let cfg = Cfg { big, address_size: 8, format64: false, version, aarch64: false };
+                if ctx.want_sample() {
+                    ctx.sample(format!("form {:#x} in {} payload {}", form, if macro_ { ".debug_macro operand table" } else { "a DIE attribute" }, mcx::hex(&payload)));
+                }
+                run_case(ctx, &|| format!("form sweep: form {:#x} {} v{} payload {}", form, if macro_ { "macro operand" } else { "DIE attribute" }, version, mcx::hex(&payload)), &ss, primary, cfg, Plan::Slice, 0);
+            })
+            .flavours(sz.fl()),
+        );
+    }
+
     // --- depth / length stressors: one sub per stressor so that a crash or hang is
     // identified by the stressor's name
     {
